@@ -38,14 +38,17 @@ def run(ck, prog):
         "check_template_args is called from every class-reference site; (R13.5) IndexCtx::error records "
         "unconditionally under the current file; (R13.6) at every can_be_casted_to site whose operands have a "
         "determinable role (type of an indexed value / declared type: a symbol's `typ`, an indexed ast::Type, a "
-        "constant type) the receiver is not a declared type and the target is not a value's type.")
+        "constant type) the receiver is not a declared type and the target is not a value's type; (R13.7) the "
+        "variables bound by !foreach, !filter and !foldl are named by and typed from the operands the reference "
+        "says (operand positions read off `values.get(k)` through the provenance chain).")
     ck.trusted = ["reference arity table in tdq/ref.py (rows marked unsure are informational)"]
     for r, t in (("R13.1", "syntax errors come from every workspace file, paired with that file"),
                  ("R13.2", "failed lookups are reported"),
                  ("R13.3", "operator arity / annotation table equals the reference"),
                  ("R13.4", "type checks are wired to diagnostics; template-argument check at every class reference"),
                  ("R13.5", "IndexCtx::error always records, under the current file"),
-                 ("R13.6", "cast checks run from the value's type to the declared type")):
+                 ("R13.6", "cast checks run from the value's type to the declared type"),
+                 ("R13.7", "bang-operator variables are typed by the operand the reference says")):
         ck.rule(r, t)
     r131(ck, prog)
     r132(ck, prog)
@@ -357,6 +360,72 @@ def r134(ck, prog):
                       b.path, "a declared type" if "declared" in rr else "a type of undetermined role",
                       "a value's type" if "value" in ar else "a type of undetermined role", b.where(i)))
     ck.floor("R13.6", "can_be_casted_to sites with a determinable role", nd, 40)
+    r137(ck, prog)
+
+
+def _deep(prog, b, op, depth=0, seen=frozenset()):
+    """where a value ultimately comes from, through calls that hand their receiver on: -> set of (kind, detail, chain);
+    kind 'pos' = the k-th operand of the bang operator (`values.get(k)` / `values.first()`)"""
+    out = set()
+    for o in prov.origins(b, op):
+        if o[0] != "call":
+            out.add((o[0], str(o[1:])[:60], ()))
+            continue
+        name, bb = str(o[1]), o[2]
+        t = b.term(bb)
+        if re.search(r"<impl \[T\]>::(get|first)$", name):
+            idx = 0
+            if name.endswith("get"):
+                idx = (t["args"][1].get("const") or {}).get("int")
+            out.add(("pos", idx, ()))
+            continue
+        if (name, bb) in seen or depth > 14 or not t["args"]:
+            out.add(("opaque", name, ()))
+            continue
+        extra = ()
+        for ga in (t["f"].get("args") or []):
+            if ga.get("closure") and prog.body(ga["closure"]) is not None:
+                extra = tuple(sorted({(Body.callee(tt) or "").rsplit("::", 1)[-1] for _, tt in prog.body(ga["closure"]).calls()}))
+        for s_ in _deep(prog, b, t["args"][0], depth + 1, seen | {(name, bb)}):
+            out.add((s_[0], s_[1], s_[2] + (name.rsplit("::", 1)[-1],) + extra))
+    return out
+
+
+def r137(ck, prog):
+    """the variables a bang operator binds: which operand names them and which operand types them.
+    Reference (TableGen Programmer's Reference, 1.10.2): !foreach(var, sequence, expr) and !filter(var, list, predicate) bind
+    operand 0 to the element type of operand 1; !foldl(init, list, acc, var, expr) binds operand 2 (acc) to the type of
+    operand 0 (init) and operand 3 (var) to the element type of operand 1 (list)."""
+    allowed = {(0, 1, True): "!foreach / !filter variable : element of the sequence",
+               (2, 0, False): "!foldl accumulator : type of init",
+               (3, 1, True): "!foldl variable : element of the list"}
+    found = set()
+    n = 0
+    for b, i, t in prog.call_sites(lambda c: c == "ide::symbol_map::variable::Variable::new"):
+        if "BangOperator" not in b.path:
+            continue
+        cb = prog.body(Body.callee(t))
+        names = [cb.local_name(k) for k in range(1, cb.argc + 1)]
+        if "name" not in names or "typ" not in names:
+            continue
+        nm = _deep(prog, b, t["args"][names.index("name")])
+        ty = _deep(prog, b, t["args"][names.index("typ")])
+        if len(nm) != 1 or len(ty) != 1 or next(iter(nm))[0] != "pos" or next(iter(ty))[0] != "pos":
+            ck.info("operator variable at %s: operands not determinable (%s / %s)" % (b.where(i), sorted(nm)[:2], sorted(ty)[:2]))
+            continue
+        n += 1
+        (_, npos, _), (_, tpos, chain) = next(iter(nm)), next(iter(ty))
+        shape = (npos, tpos, "element_typ" in chain)
+        found.add(shape)
+        ck.ob("R13.7", "operator-variable:%s:%s" % (npos, b.line(i) and n), shape in allowed,
+              allowed.get(shape, "operand %s typed by operand %s" % (npos, tpos)),
+              msg="%s: the variable named by operand %s of a bang operator is given the %s of operand %s [%s]; the reference "
+                  "binds %s — a well-typed body is then reported as ill-typed (or an ill-typed one accepted)" % (
+                      b.path, npos, "element type" if shape[2] else "type", tpos, b.where(i),
+                      "; ".join("operand %d to the %s of operand %d" % (k[0], "element type" if k[2] else "type", k[1]) for k in sorted(allowed))))
+    ck.ob("R13.7", "operator-variable-shapes", found >= set(allowed) or n == 0, "all three binding shapes are present",
+          msg="a bang-operator variable binding of the reference is missing: %s" % sorted(set(allowed) - found), nontrivial=False)
+    ck.floor("R13.7", "bang-operator variable bindings", n, 4)
     # every class-reference site reaches check_template_args (directly or through helpers of the indexer)
     from ..callgraph import callgraph
     cg = callgraph(prog)
